@@ -125,6 +125,7 @@ def strip_cls(vj, a, b):
     return vj
 
 
+@iso.tmp_cleaned
 def refs_child(job):
     """String references and ForwardRefs at the root: issued from the defining module, from another module with a
     qualified name, and from nested call depths."""
